@@ -28,11 +28,11 @@ const legacyVersion = "2025-06-18"
 type Call struct {
 	// Args is the literal JSON sent as "arguments" (it need not be an object).
 	// Empty means CallToolParams.Arguments is left nil.
-	Args   json.RawMessage `json:"args,omitempty"`
+	Args json.RawMessage `json:"args,omitempty"`
 	// AsGo: the arguments are handed to CallTool as the Go value they decode to (map, slice, string, float64,
 	// bool) instead of as raw JSON: the same JSON goes over the wire either way.
-	AsGo bool `json:"as_go,omitempty"`
-	ArgMut []string        `json:"arg_mut,omitempty"` // labels, for the histogram only
+	AsGo   bool     `json:"as_go,omitempty"`
+	ArgMut []string `json:"arg_mut,omitempty"` // labels, for the histogram only
 	// Out is the JSON from which the handler builds the value it returns.
 	Out    json.RawMessage `json:"out,omitempty"`
 	OutMut []string        `json:"out_mut,omitempty"`
@@ -52,8 +52,14 @@ type Script struct {
 	// gotype family
 	Type string `json:"type,omitempty"`
 
-	Cache bool   `json:"cache,omitempty"` // ServerOptions.SchemaCache set (shared across cases)
-	Calls []Call `json:"calls"`
+	Cache bool `json:"cache,omitempty"` // ServerOptions.SchemaCache set (shared across cases)
+	// AskFirst: the handler needs input from the client (its roots) before it can answer: invoked without
+	// input responses it returns an input request and nothing else; it is then invoked again with the
+	// responses (by the server itself for a client of an older protocol version, by the client's retry for a
+	// 2026-07-28 client, Modern). Every invocation is an invocation of the typed handler.
+	AskFirst bool   `json:"ask_first,omitempty"`
+	Modern   bool   `json:"modern,omitempty"`
+	Calls    []Call `json:"calls"`
 }
 
 var sharedCache = mcp.NewSchemaCache()
@@ -115,6 +121,8 @@ func genExplicit(rt *rapid.T) Script {
 	s.Form = g.pick(3, "form")
 	s.Cache = g.coin("cache")
 	s.Twice = g.pct(25, "twice")
+	s.AskFirst = g.pct(20, "ask_first")
+	s.Modern = s.AskFirst && g.pct(40, "modern")
 	n := g.intn(1, 5, "ncalls")
 	for i := 0; i < n; i++ {
 		var c Call
@@ -138,6 +146,8 @@ func genGoType(rt *rapid.T) Script {
 	s.Type = g.oneOf(goToolWeighted, "type")
 	s.Cache = g.coin("cache")
 	p := pub[s.Type]
+	s.AskFirst = g.pct(20, "ask_first")
+	s.Modern = s.AskFirst && g.pct(40, "modern")
 	n := g.intn(1, 5, "ncalls")
 	for i := 0; i < n; i++ {
 		var c Call
@@ -192,6 +202,11 @@ func registerExplicit(server *mcp.Server, env *caseEnv, s Script) error {
 			func(ctx context.Context, req *mcp.CallToolRequest, args map[string]any) (*mcp.CallToolResult, any, error) {
 				env.mu.Lock()
 				defer env.mu.Unlock()
+				if env.askFirst && len(req.Params.InputResponses) == 0 {
+					env.asked++
+					env.seenAsk, _ = json.Marshal(args)
+					return &mcp.CallToolResult{InputRequests: mcp.InputRequestMap{"roots": &mcp.ListRootsParams{}}}, nil, nil
+				}
 				env.invoked++
 				env.seen, _ = json.Marshal(args)
 				c := env.cur
@@ -234,7 +249,7 @@ func errText(res *mcp.CallToolResult) string {
 
 func run(s Script) (res vt.Result) {
 	ctx := context.Background()
-	env := &caseEnv{}
+	env := &caseEnv{askFirst: s.AskFirst}
 	opts := &mcp.ServerOptions{}
 	if s.Cache {
 		opts.SchemaCache = sharedCache
@@ -282,7 +297,11 @@ func run(s Script) (res vt.Result) {
 		return
 	}
 	client := mcp.NewClient(&mcp.Implementation{Name: "c16-client", Version: "1"}, nil)
-	cs, err := client.Connect(ctx, ct, &mcp.ClientSessionOptions{ProtocolVersion: legacyVersion})
+	version := legacyVersion
+	if s.Modern {
+		version = "2026-07-28"
+	}
+	cs, err := client.Connect(ctx, ct, &mcp.ClientSessionOptions{ProtocolVersion: version})
 	if err != nil {
 		res.Failf("harness: client connect: %v", err)
 		return
@@ -344,6 +363,7 @@ func run(s Script) (res vt.Result) {
 		result, callErr := cs.CallTool(ctx, params)
 		env.mu.Lock()
 		invoked, seen, outJSON, outZero, outNilPtr, outNil := env.invoked, env.seen, env.outJSON, env.outZero, env.outNilPtr, env.outNil
+		asked, seenAsk := env.asked, env.seenAsk
 		env.mu.Unlock()
 		tag := fmt.Sprintf("call %d (args %s)", i, c.Args)
 
@@ -387,7 +407,7 @@ func run(s Script) (res vt.Result) {
 			if d >= 2 {
 				res.NonTrivial = true
 			}
-			if invoked != 0 {
+			if invoked+asked != 0 {
 				res.Failf("%s: handler ran %d time(s) with arguments that are invalid under the published input schema (%s); it saw %s", tag, invoked, inErrs[0].Msg, seen)
 			}
 			if _, isObj := args.(map[string]any); callErr != nil && !isObj {
@@ -428,6 +448,15 @@ func run(s Script) (res vt.Result) {
 		}
 		if got := mustDecode(seen); !jsonEq(got, wantSeen) {
 			res.Failf("%s: handler received %s, want the arguments with defaults applied %s", tag, seen, mustJSON(wantSeen))
+		}
+		if s.AskFirst {
+			res.Class(fmt.Sprintf("handler_asked_for_input_first_modern=%v", s.Modern))
+			res.NonTrivial = true
+			if asked != 1 {
+				res.Failf("%s: the handler asks for the client's roots before it answers: it was invoked %d time(s) without input responses, want once (then once with them)", tag, asked)
+			} else if got := mustDecode(seenAsk); !jsonEq(got, wantSeen) {
+				res.Failf("%s: invoked without input responses the handler received %s, invoked again with them %s: want the arguments with defaults applied both times", tag, seenAsk, seen)
+			}
 		}
 
 		// ---- output side ----
